@@ -1753,6 +1753,16 @@ class ReplayWindow:
     def initialize_from_persisted(self, persisted):
         self._index = persisted["index"]
         self._bitfield = persisted["bitfield"]
+        if self._bitfield is not None:
+            # The state may have been persisted by a window larger than this
+            # one. Numbers recorded as seen beyond the own size must not be
+            # forgotten (is_valid takes everything beyond the window as
+            # unseen), so the window is moved up until they are all inside
+            # it, just as strike_out would have moved it.
+            excess = int.bit_length(self._bitfield) - self._size
+            if excess > 0:
+                self._index += excess
+                self._bitfield >>= excess
 
     def initialize_from_freshlyseen(self, seen):
         """Initialize the replay window with a particular value that is just
